@@ -736,8 +736,8 @@ def slice_mesh_plane(
         kwargs["process"] = False
 
     # slice away specified planes
-    for origin, normal in zip(
-        plane_origin.reshape((-1, 3)), plane_normal.reshape((-1, 3))
+    for index, (origin, normal) in enumerate(
+        zip(plane_origin.reshape((-1, 3)), plane_normal.reshape((-1, 3)))
     ):
         # save the new vertices and faces
         vertices, faces, uv = slice_faces_plane(
@@ -746,7 +746,9 @@ def slice_mesh_plane(
             uv=uv,
             plane_normal=normal,
             plane_origin=origin,
-            face_index=face_index,
+            # `face_index` refers to the faces of the original mesh: the
+            # first plane selects them and later planes slice what is left
+            face_index=face_index if index == 0 else None,
         )
         # check if cap arg specified
         if cap:
